@@ -244,6 +244,13 @@ impl<'a, T> ChordsV2<'a, T> {
 
     fn drain_inputs(&mut self, drainq: &mut SmolQueue, active_layer: u16) {
         if self.ticks_to_ignore_chord > 0 {
+            // Releases must still reach the active chords: otherwise a chord whose keys are
+            // released while chords are being ignored is never released.
+            for qd in self.queue.iter() {
+                if let Event::Release(0, j) = qd.event {
+                    release_key_from_active_chords(&mut self.active_chords, j);
+                }
+            }
             drainq.extend(self.queue.drain(0..));
             return;
         }
@@ -290,19 +297,7 @@ impl<'a, T> ChordsV2<'a, T> {
                 true
             }
             Event::Release(_, j) => {
-                // Release the key from active chords.
-                achs.iter_mut().for_each(|ach| {
-                    if !ach.participating_keys.contains(&j) {
-                        return;
-                    }
-                    ach.remaining_keys_to_release.retain(|pk| *pk != j);
-                    if ach.remaining_keys_to_release.is_empty() {
-                        ach.status = match ach.status {
-                            Unread | UnreadReleased => UnreadReleased,
-                            Releasable | Released => Released,
-                        }
-                    }
-                });
+                release_key_from_active_chords(achs, j);
                 if presses.is_empty() {
                     drainq.push_back(*qd);
                     false
@@ -534,6 +529,22 @@ impl<'a, T> ChordsV2<'a, T> {
             }
         });
     }
+}
+
+/// Release the key from the active chords it participates in.
+fn release_key_from_active_chords<T>(achs: &mut HVec<ActiveChord<'_, T>, 10>, j: u16) {
+    achs.iter_mut().for_each(|ach| {
+        if !ach.participating_keys.contains(&j) {
+            return;
+        }
+        ach.remaining_keys_to_release.retain(|pk| *pk != j);
+        if ach.remaining_keys_to_release.is_empty() {
+            ach.status = match ach.status {
+                Unread | UnreadReleased => UnreadReleased,
+                Releasable | Released => Released,
+            }
+        }
+    });
 }
 
 fn get_active_chord<'a, T>(
